@@ -10,7 +10,7 @@ RULE = ("graph searches on the real core code (Dijkstra, A* with weight factors 
         "worlds inside the property's hypotheses (edge-local frontier = forbid sets, edge-local positive costs, no "
         "failing model, no limit): deterministic families first (forbidden bridge / parallel twin / first hop / last "
         "hop, everything forbidden, two components, one-way streets, chains, relabelling, edge-oriented with a "
-        "forbidden edge between or on the query edges, plus searchkit's boundary families: dead-end origin, isolated "
+        "forbidden edge between or on the query edges; extreme weight factors {0, 5e-324, 1e-300, 1e300, 1e308, f64::MAX} from the algorithm config and from the query's weight_factor field with non-zero heuristic tables, so that f-scores underflow or are all +infinity, on reachable and unreachable destinations; plus searchkit's boundary families: dead-end origin, isolated "
         "or neighbouring destination, self loops, parallel edges, one-way ring, destination edge adjacent to / "
         "reverse of / ending at the start of the origin edge), then EVERY digraph on <= 2 vertices (thorough: <= 3) "
         "with self loops, plus one with a parallel twin, x every ordered pair and every destination-less origin x both "
